@@ -207,6 +207,7 @@ func (m *MW) StepQuoteLimits() {
 	}
 	amt := cands[m.T.Choose("lim.amt", len(cands))]
 	melt := m.T.Chance("lim.melt", 1, 3)
+	internal := melt && m.T.Chance("lim.internal", 1, 3)
 	m.rc.Op(fmt.Sprintf("quote-limit melt=%v amt=%d", melt, amt))
 	m.begin()
 	m.rc.S.Run1(m.name("lim"), W.Ext, func() {
@@ -214,8 +215,19 @@ func (m *MW) StepQuoteLimits() {
 			if amt == 0 || amt > 1<<40 {
 				amt = 1 + amt%1000
 			}
-			inv := W.LN.NewExternalInvoice(amt * 1000)
-			_, r := m.Atk.ReqMeltQuote(mint, inv.Bolt11, 0)
+			bolt := ""
+			if internal {
+				// the invoice of one of this mint's own mint quotes (internal settlement): the melt
+				// maximum applies all the same
+				if q, _ := m.Atk.ReqMintQuote(mint, amt, false); q != nil {
+					bolt = q.Request
+					m.rc.S.Probe("c16_melt_quote_limit_internal_invoice")
+				}
+			}
+			if bolt == "" {
+				bolt = W.LN.NewExternalInvoice(amt * 1000).Bolt11
+			}
+			_, r := m.Atk.ReqMeltQuote(mint, bolt, 0)
 			reject := lim.MeltingSettings.MaxAmount > 0 && amt > lim.MeltingSettings.MaxAmount
 			m.rc.S.Probe("c16_melt_quote_limit_checked")
 			if reject && (r.OK() || r.Code != 11006) {
